@@ -412,12 +412,25 @@ def compare_stats_faults(run, tmp, pair, mbm):
                     run.fail(case, 'the compare reader, used again after the failure, returns other statistics than a fresh reader',
                              signature=dict(kind='stale-after-failure'))
         # stats: a failing dataset read / read_masks
-        base = fusion.run_fuse(pair.src_path, pair.ref_path, tmp / 'c09_st.tif', model='gain-offset', kernel_shape=(3, 3), threads=1,
+        # (a pair whose parameter image is valid over its whole extent - the source covers the reference exactly - and has 3 x 3 tiles:
+        # the valid-data window is complete before the last tile has been looked at)
+        import rasters
+        g_r = rasters.Grid(8 * 7000, 8 * 3000, 16, 16, 48, 48)
+        g_s = rasters.Grid(8 * 7000, 8 * 3000, 8, 8, 96, 96)
+        rng2 = run.rng('stats-full')
+        s2 = np.array([[[rng2.randint(20, 200) for _ in range(g_s.w)] for _ in range(g_s.h)]], float)
+        r2 = np.array([[[rng2.randint(30, 150) for _ in range(g_r.w)] for _ in range(g_r.h)]], float)
+        pair2 = fusion.write_pair(tmp, 'c09full', g_s, g_r, s2, r2, None, None)
+        base = fusion.run_fuse(pair2.src_path, pair2.ref_path, tmp / 'c09_st.tif', model='gain-offset', kernel_shape=(3, 3), threads=1,
                                param=True, out_profile=dict(creation_options=dict(tiled=True, blockxsize=16, blockysize=16)))
         with ParamStats(base.param_path) as ps0:
             base_st = ps0.stats(threads=1)
+        import rasterio as rio
+        with rio.open(base.param_path) as ds_:
+            ntiles = len(list(ds_.block_windows(1)))
         for meth in ('read_masks', 'dataset_mask', 'read'):
-            for k in ((0, 1, 3) if run.quick() else (0, 1, 2, 3, 5, 7)):
+            # (the last tile of the valid-data window pre-pass too: by then the window found may already be the whole image)
+            for k in ((0, 1, 3) if run.quick() else (0, 1, 2, 3, 5, 7)) + ((ntiles - 1,) if meth == 'dataset_mask' and ntiles > 4 else ()):
                 for T in (1, 3):
                     ps = ParamStats(base.param_path)
                     case = dict(i=3 * 10**6 + k * 10 + T, op='stats', method=meth, fail_call=k, threads=T)
